@@ -12,6 +12,8 @@ and dependencies live in models.py, contracts in /verif/contracts.
 from __future__ import annotations
 
 import ast
+import os
+import collections
 import builtins
 import enum
 import time
@@ -181,13 +183,48 @@ class ExcVal:
 class HObj:
     """A mutable object of the interpreted program (identity = python identity)."""
 
+    _counter = [0]
+
     def __init__(self, cls, fields=None, label=None):
         self.cls = cls
         self.fields = dict(fields or {})
         self.label = label or cls.__name__
+        HObj._counter[0] += 1
+        self._serial = HObj._counter[0]      # objects made before the function under contract is entered are its pre-state
 
     def __repr__(self):
         return f"<HObj {self.label} {list(self.fields)}>"
+
+
+def _generic_label(obj):
+    """the object's role for frame purposes: its class name (labels of units vary with paths: 'partial_chart' vs 'self')"""
+    return getattr(obj.cls, "__name__", str(obj.cls))
+
+
+_MODULE_STATE = {}
+
+
+def _module_state_name(obj):
+    """name of the module-level / class-level attribute of the library that holds this very container, or None"""
+    import sys as _sys
+    if not _MODULE_STATE.get("built"):
+        reg = {}
+        for mn, mod in list(_sys.modules.items()):
+            if mod is None or not (mn == "simfile" or mn.startswith("simfile.")):
+                continue
+            for k, v in list(vars(mod).items()):
+                if isinstance(v, (list, dict, set, collections.deque, collections.OrderedDict)):
+                    reg.setdefault(id(v), (v, f"{mn}.{k}"))
+                if isinstance(v, type) and getattr(v, "__module__", "").startswith("simfile"):
+                    for ak, av in list(vars(v).items()):
+                        if isinstance(av, (list, dict, set)):
+                            reg.setdefault(id(av), (av, f"{mn}.{v.__name__}.{ak}"))
+        _MODULE_STATE["reg"] = reg
+        _MODULE_STATE["built"] = True
+    hit = _MODULE_STATE["reg"].get(id(obj))
+    if hit is not None and hit[0] is obj:
+        return hit[1]
+    return None
 
 
 class NTVal:
@@ -535,6 +572,8 @@ class Ex:
         self.native_args = None
         self.native_result = None
         self.pre_call_decisions = None
+        self.call_serial = None       # HObj serial at the moment the function under contract was entered
+        self.state_writes = set()     # "label.field" of pre-existing objects / "module:<name>" written by the function
         self.repo = repo()
         self.prefix = list(prefix)
         self.dpos = 0
@@ -1097,7 +1136,16 @@ class Ex:
             raise _WouldFork()
         if self.writes is not None:
             self.writes.append(("field", obj, field))
+        if self.call_serial is not None and getattr(obj, "_serial", 1 << 60) <= self.call_serial and not getattr(obj, "_slot_owned", None):
+            self.state_writes.add(f"{_generic_label(obj)}.{field}")
         obj.fields[field] = value
+
+    def note_module_state_write(self, obj):
+        """a module-level or class-level container of the library is being mutated"""
+        nm = _module_state_name(obj)
+        if nm is not None and self.call_serial is not None:
+            self.state_writes.add("module:" + nm)
+        return nm
 
     def setlocal(self, frame: Frame, name, value):
         if self.writes is not None:
@@ -1116,6 +1164,8 @@ class Ex:
         if getattr(self, "pins", None) is not None:
             return self._native_call(fn, list(args), dict(kwargs or {}))
         self.pre_call_decisions = getattr(self, "pre_call_decisions", None) if getattr(self, "pre_call_decisions", None) is not None else len(self.decisions)
+        if self.call_serial is None:
+            self.call_serial = HObj._counter[0]
         try:
             v = self.call(fn, list(args), dict(kwargs or {}))
             return ("return", v)
@@ -1249,6 +1299,25 @@ class Ex:
 
     def call_closure(self, clo: Closure, args, kwargs):
         fi = clo.fi
+        if self.call_serial is None and self.depth == 0:
+            self.call_serial = HObj._counter[0]       # first entry into code of the library on this path
+        if not hasattr(fi, "_decorators_ok"):
+            # a decorator wraps the function in behaviour of its own (caching, retrying, coercion ...): only the ones the
+            # executor gives a meaning to are accepted, anything else is unsupported rather than silently ignored
+            ok = {"property", "classmethod", "staticmethod", "abstractmethod", "abstractclassmethod", "abstractstaticmethod", "contextmanager",
+                  "total_ordering", "overload", "final", "override"}
+            bad = []
+            for d in getattr(fi.node, "decorator_list", []):
+                nm = d.id if isinstance(d, ast.Name) else d.attr if isinstance(d, ast.Attribute) else (d.func.id if isinstance(d, ast.Call) and isinstance(d.func, ast.Name) else
+                                                                                                        d.func.attr if isinstance(d, ast.Call) and isinstance(d.func, ast.Attribute) else "?")
+                if nm in ("setter", "deleter", "getter"):
+                    continue
+                if nm not in ok:
+                    bad.append(nm)
+            fi._decorators_ok = not bad
+            fi._bad_decorators = bad
+        if not fi._decorators_ok:
+            raise Unsupported(f"{fi.qualname} is wrapped by the decorator(s) {fi._bad_decorators}, which the executor does not model")
         cc = self.callee_contracts.get(fi.qualname)
         if cc is not None and self.depth > 0:
             return cc(self, args, kwargs)
@@ -2542,6 +2611,7 @@ class UnitResult:
         self.seconds = 0.0
         self.functions = []
         self.notes = []
+        self.state_writes = set()
 
 
 def explore(unit, max_paths=4000):
@@ -2558,6 +2628,9 @@ def explore(unit, max_paths=4000):
         res.paths += 1
         if res.paths > max_paths:
             res.errors.append(f"path budget exceeded ({max_paths})")
+            break
+        if time.time() - t0 > float(os.environ.get("PYVC_UNIT_SECONDS", "150")):
+            res.errors.append(f"time budget of the unit exceeded after {res.paths} paths (the code under contract branches far more than on the pinned tree)")
             break
         try:
             unit.run(ex)
@@ -2582,6 +2655,7 @@ def explore(unit, max_paths=4000):
         res.covers |= ex.covers
         res.assumptions |= ex.assumptions_used
         res.notes.extend(ex.notes)
+        res.state_writes |= ex.state_writes
         stack.extend(ex.alternatives)
     res.seconds = time.time() - t0
     return res
